@@ -48,11 +48,11 @@ type cfgChange struct {
 	rate, burst int
 }
 
-const ruleC15 = "rapid-drawn token bucket configuration (rate 8 kbit/s..100 Mbit/s, burst 100..100000 B, queue 1000..200000 B) and arrival pattern (5..300 chunks, sizes 0..3*burst, gaps {0,1 ms,50 ms,90..110 ms,1 s,1 h}, run-time Set(TBFRate|TBFMaxBurst) at drawn points) on the clock-redirected vnet/tbf.go; virtual time advances only while the filter goroutine is parked in its select, so every forwarding event has an exact timestamp; oracle: for all pairs i<=j of forwarding events sum(bytes i..j) <= B + R*(t_j-t_i)/8 with B,R the largest burst/rate configured at any instant of the interval; the forwarded chunks are exactly the head-of-queue objects in arrival order with unchanged contents; an arrival is discarded only if queued bytes + its length >= the queue size; non-trivial = the bucket was drained and refilled at least twice and at least one idle gap exceeded burst/rate; distinct by hash of configuration + arrivals"
+const ruleC15 = "rapid-drawn token bucket configuration (rate 8 kbit/s..100 Mbit/s, burst 100..100000 B, queue 1000..200000 B) and arrival pattern (5..300 chunks, sizes 0..3*burst, gaps {0,1 ms,50 ms,90..110 ms,1 s,1 h}, run-time Set(TBFRate|TBFMaxBurst) at drawn points: on average every 25th, 4th or 2nd arrival, to one of the listed values or to the current rate +-1/8 bit/s) on the clock-redirected vnet/tbf.go; virtual time advances only while the filter goroutine is parked in its select, so every forwarding event has an exact timestamp; oracle: for all pairs i<=j of forwarding events sum(bytes i..j) <= B + R*(t_j-t_i)/8 with B,R the largest burst/rate configured at any instant of the interval; the forwarded chunks are exactly the head-of-queue objects in arrival order with unchanged contents; an arrival is discarded only if queued bytes + its length >= the queue size; non-trivial = the bucket was drained and refilled at least twice and at least one idle gap exceeded burst/rate; distinct by hash of configuration + arrivals"
 
 func TestC15TokenBucket(t *testing.T) {
 	r := ev.New("C15", "virtual-clock", ruleC15)
-	r.Essential = []string{"gap/90..110ms", "gap/1h", "size/above-burst", "discard", "set/rate", "set/burst", "drained>=2"}
+	r.Essential = []string{"gap/90..110ms", "gap/1h", "size/above-burst", "discard", "set/rate", "set/burst", "set/frequent", "set/rate-nudge", "drained>=2"}
 	r.MinForEssential = 300
 	r.Assume("the filter reads the clock only through time.Now/time.Since (checked by the instrumentation pass: no unsupported time facility in vnet/tbf.go)")
 	r.Check(t, func(t *rapid.T, c *ev.Case) {
@@ -98,6 +98,11 @@ func TestC15TokenBucket(t *testing.T) {
 		changes := []cfgChange{{0, rate, burst}}
 		curRate, curBurst := rate, burst
 		n := rapid.IntRange(5, 300).Draw(t, "arrivals")
+		// how often the configuration changes at run time: rarely, or every few arrivals
+		setOneIn := rapid.SampledFrom([]int{25, 25, 4, 2}).Draw(t, "setOneIn")
+		if setOneIn <= 4 {
+			c.Label("set/frequent")
+		}
 		drained, longIdle := 0, false
 		t.Logf("rate=%d bit/s burst=%d B queue=%d B", rate, burst, qsize)
 		for i := 0; i < n; i++ {
@@ -123,9 +128,18 @@ func TestC15TokenBucket(t *testing.T) {
 				longIdle = true
 			}
 			clock.Advance(gap)
-			if rapid.IntRange(0, 24).Draw(t, "set") == 0 {
+			if rapid.IntRange(0, setOneIn-1).Draw(t, "set") == 0 {
 				if rapid.Bool().Draw(t, "which") {
-					curRate = rapid.SampledFrom([]int{8000, 64000, 1000000, 8000000}).Draw(t, "nrate")
+					if rapid.Bool().Draw(t, "nudge") {
+						// a change that barely moves the rate: the bound stays essentially the same, the code path does not
+						curRate += rapid.SampledFrom([]int{-1, 1, -8, 8}).Draw(t, "drate")
+						if curRate < 8 {
+							curRate = 8
+						}
+						c.Label("set/rate-nudge")
+					} else {
+						curRate = rapid.SampledFrom([]int{8000, 64000, 1000000, 8000000}).Draw(t, "nrate")
+					}
 					tbf.Set(vnet.TBFRate(curRate))
 					c.Label("set/rate")
 					c.Op("Set rate %d", curRate)
